@@ -76,11 +76,12 @@ def scenarios(draw):
     # feature ids that begin like the statistics lines at the end of the tables ("__ambiguous", ...)
     if src.bool(0.2):
         for g in sc["genes"]:
+            pre = src.choice(["_", "_", "#"])
             if src.bool(0.4):
-                g["id"] = "_" + g["id"]
+                g["id"] = pre + g["id"]
             for t in g["transcripts"]:
                 if src.bool(0.3):
-                    t["id"] = "_" + t["id"]
+                    t["id"] = pre + t["id"]
     tq, gq = src.choice(counting.STRATEGIES), src.choice(counting.STRATEGIES)
     norm = src.choice(["simple", "usable_reads"])
     sc["opts"] = ["--data_type", dt, "--no_gzip", "--threads", str(src.choice([1, 2])),
